@@ -756,6 +756,10 @@ func goCode(root string, unit string) string {
 		header("Model.GoSem", "Model.GoJson", "Model.GoSlices", "Model.Pub", "Model.GoPub", "Model.GoNewitem", "Generated.GoObject", "Generated.GoClient", "Generated.GoListing")
 		text, errs := translateNewitem(root)
 		emit("pub/post.go, pub/actor.go, pub/activity.go, pub/common.go (the constructors of the items and what they call)", text, errs)
+	case "navigate":
+		header("Model.GoSem", "Model.GoJson", "Model.GoStrings", "Model.Pub", "Model.GoPub", "Model.GoNewitem", "Model.GoNavigate", "Generated.GoListing", "Generated.GoNewitem")
+		text, errs := translateNavigate(root)
+		emit("pub/post.go, pub/actor.go, pub/activity.go, pub/failure.go (Parents, Children, the identifiers, Creators, Recipients, Actor, Target, Timestamp), pub/user-input.go (FetchUserInput)", text, errs)
 	case "gemtext":
 		header("Model.GoSem", "Model.GoText", "Model.GoStrings", "Model.Style", "Generated.GoAnsih", "Generated.GoStyle")
 		text, errs := translateGemtext(root)
